@@ -249,6 +249,7 @@ def gen_mubrems(r):
     cut = r.choice([1e-3, 1e-3, 0.02, logu(r, 1e-4, 10)])
     E = gen_energy(r, nextafter(cut, True), 1e8, specials=[cut * 1.01, 1.0, 1100.0, 1e5])
     mi, ec = pick_mat(r)
+    cut = brem_cut_corner(r, E, cut)
     return mk("mubrems", r, E, 1, cut, variant=r.choice([0, 1]), mat=mi, elcomp=ec, nstream=200, allow_zero=False)
 
 
@@ -263,12 +264,14 @@ def gen_rayleigh(r):
 def gen_sb(r):
     cut = r.choice([1e-3, 0.02064384, logu(r, 1e-3, 1.0)])
     E = gen_energy(r, nextafter(cut, True), nextafter(1e3, False), specials=[cut * 1.001, 1.0, 10.0, 100.0])
+    cut = brem_cut_corner(r, E, cut)
     return mk("sb", r, E, 1, cut, variant=r.choice([0, 1]), mat=r.choice([0, 1]), nstream=256, allow_zero=False)
 
 
 def gen_relbrem(r):
     cut = r.choice([1e-3, 0.0945861, logu(r, 1e-3, 10.0)])
     E = gen_energy(r, 1e3, 1e8, specials=[1e4, 2.5e4, 1e6])
+    cut = brem_cut_corner(r, E, cut)
     return mk("relbrem", r, E, 1, cut, variant=r.choice([0, 1, 2, 3]), mat=r.choice([0, 1]), nstream=256,
               allow_zero=False)
 
@@ -276,6 +279,7 @@ def gen_relbrem(r):
 def gen_combined(r):
     cut = r.choice([1e-3, 0.02064384, logu(r, 1e-3, 1.0)])
     E = gen_energy(r, nextafter(cut, True), 1e8, specials=[1e3, cut * 1.001, 1.0, 2.5e4])
+    cut = brem_cut_corner(r, E, cut)
     return mk("combined", r, E, 1, cut, variant=r.choice([0, 1]), mat=r.choice([0, 1]), nstream=256,
               allow_zero=False)
 
@@ -311,9 +315,29 @@ GENERATORS = {
 }
 
 
+def load_corpus():
+    """minimised past disagreements / findings, run first"""
+    import json
+    path = os.path.join(os.path.dirname(os.path.abspath(__file__)), "corpus", "cases.json")
+    if not os.path.exists(path):
+        return []
+    out = []
+    for e in json.load(open(path)):
+        out.append(Case(e["model"], [float.fromhex(x) for x in e["p_hex"]], [float.fromhex(x) for x in e["u_hex"]],
+                        modelled=False, tag="corpus"))
+    return out
+
+
+def brem_cut_corner(r, E, cut):
+    """gamma production cut within a few ulp .. 1e-6 (relative) below the incident energy"""
+    if r.random() < 0.08:
+        return E * (1 - r.choice([2.0 ** -52, 2.0 ** -51, 1e-15, 1e-12, 1e-9, 1e-6]))
+    return cut
+
+
 def gen_cases(ctx, scale):
     r = ctx.rng
-    cases = []
+    cases = load_corpus()
     for name, (g, n) in GENERATORS.items():
         for _ in range(int(n * scale)):
             cases.append(g(r))
@@ -488,6 +512,18 @@ def run_model(ctx, cases, impl):
 # ---------------------------------------------------------------------------
 # comparison
 
+def _axis_tol(c, d, base):
+    """a direction within ~1e-6 rad of +- the incident axis has sin(theta) = sqrt(1 - cos^2) with cos^2 within
+    1e-12 of 1: the transverse components (~1e-6) are determined by the rounding of cos alone"""
+    try:
+        dot = sum(x * y for x, y in zip(d, c.dir))
+        if math.isfinite(dot) and 1 - abs(dot) <= 1e-12:
+            return max(base, 1e-6)
+    except TypeError:
+        pass
+    return base
+
+
 def _at_tmax(c, a):
     if not a["secs"] or a["secs"][0][0] != 0:
         return False
@@ -521,7 +557,7 @@ def agree(c, a, b):
             patol = 1e-6
         if c.model == "kn" and a["E"] > 0 and abs((1 - a["E"] / c.E) / (a["E"] / c.E * c.E / EMASS) - 2) <= 1e-9:
             patol = 1e-6
-        if not stopped and not close(a["dir"], b["dir"], 1e-9, patol):
+        if not stopped and not close(a["dir"], b["dir"], 1e-9, _axis_tol(c, a["dir"], patol)):
             return False
     # at the kinematic limit T_e = Tmax, cos(theta) = 1 - O(eps) and sin(theta) = sqrt(1 - cos^2) is
     # determined by rounding alone (cf. the NaN known finding): directions compared to 1e-6 there
@@ -536,7 +572,7 @@ def agree(c, a, b):
         if abs(a["secs"][0][1] - tmax) <= 1e-10 * tmax:
             datol = 1e-6
     for sa, sb in zip(a["secs"], b["secs"]):
-        if sa[0] != sb[0] or not close(sa[1], sb[1], 1e-9, eatol) or not close(sa[2], sb[2], 1e-9, datol):
+        if sa[0] != sb[0] or not close(sa[1], sb[1], 1e-9, eatol) or not close(sa[2], sb[2], 1e-9, _axis_tol(c, sa[2], datol)):
             return False
     return True
 
@@ -620,7 +656,10 @@ def nan_signature(c, a):
             etot = F(c.E) + 2 * F(EMASS)
             eps = F(a["secs"][0][1]) / etot
             cos2 = (eps * etot - F(EMASS)) ** 2 / (eps * eps * F(c.E) * etot)
-            if extreme and abs(float(1 - cos2)) <= 1e-11:
+            # eps = 1/2 -+ sqgrate carries an absolute rounding error ~1e-16 (cancellation at large tau) that
+            # cos amplifies by d cos / d eps = m / (eps^2 p)
+            tol = max(1e-11, 4e-15 * EMASS / (float(eps) ** 2 * math.sqrt(c.E * (c.E + 2 * EMASS))))
+            if extreme and abs(float(1 - cos2)) <= tol:
                 return "eplusgg-cost-outside-unit-interval-by-rounding-nan-direction"
         if m in ("mb", "muhad_bb", "muhad_mubb", "muhad_bragg") and act == 0:
             te = F(a["secs"][0][1])
@@ -680,7 +719,16 @@ def oracle(c, a):
         bad.append(("energy not conserved: in %.17g out %.17g (diff %.3g)" % (e_in, e_out, e_in - e_out), None))
     # validity
     if a["dep"] < 0 or (act == 0 and a["E"] < 0):
-        bad.append(("negative energy (deposit %.3g, exiting %.3g)" % (a["dep"], a["E"]), None))
+        sig = None
+        # known finding, narrow: bremsstrahlung model, exiting energy negative at rounding level because the sampled
+        # photon energy is the incident energy + 1-2 ulp, with the gamma cut within 1e-12 (relative) of the incident
+        # energy or an extreme uniform consumed (photon energy at the upper end of its range)
+        if (m in BREM and a["dep"] >= 0 and act == 0 and abs(a["E"]) <= 1e-12 * c.E and len(a["secs"]) == 1
+                and abs(a["secs"][0][1] - c.E) <= 1e-12 * c.E):
+            used = c.u[:a["draws"]]
+            if abs(c.cut_g - c.E) <= 1e-12 * c.E or any(x <= 2.0 ** -29 or x >= 1 - 2.0 ** -19 for x in used):
+                sig = "brem-exiting-energy-negative-by-rounding-at-cut-near-energy"
+        bad.append(("negative energy (deposit %.3g, exiting %.3g)" % (a["dep"], a["E"]), sig))
     if act == 0 and abs(math.sqrt(nsq(a["dir"])) - 1) > 1e-12:
         bad.append(("exiting direction is not a unit vector: %r" % (a["dir"],), None))
     for i, (pid, e, d) in enumerate(a["secs"]):
@@ -748,7 +796,7 @@ def compare_all(ctx, exe, cases, impl, model):
         if st == "exhausted":
             ctx.count("exhausted-stream-len-%d" % len(c.u))
         if st == "exhausted" and len(c.u) >= 200 and c.tag != "low-acceptance" and not (
-                c.model in ("sb", "combined") and c.E < 1.05 * c.cut):
+                c.model in BREM and c.E < 1.05 * c.cut):
             key = (c.model, "exhausted", None)
             nviol[key] = nviol.get(key, 0) + 1
             if nviol[key] <= 2:
